@@ -334,7 +334,7 @@ class Interp:
                 return ('hook', e.id)
             if e.id in h.module.funcs:
                 return Closure(h.module.funcs[e.id].node, {}, None, None)
-            if e.id in ('tuple', 'str', 'int', 'list', 'dict'):
+            if e.id in ('tuple', 'str', 'int', 'list', 'dict') or (e.id[:1].isupper() and e.id not in env):
                 return ('class', e.id)
             raise AnalysisError('heap model: unbound name %s' % e.id)
         if isinstance(e, ast.Attribute):
@@ -459,7 +459,13 @@ class Interp:
             return h.alloc(fn.id, {'text': args[0] if args else None, 'parent_element': None})
         if isinstance(fn, ast.Name) and fn.id == 'isinstance' and len(e.args) == 2:
             cl = e.args[1]
-            names = [norm(x) for x in cl.elts] if isinstance(cl, ast.Tuple) else [norm(cl)]
+            v = args[1]
+            if isinstance(v, tuple) and v and v[0] == 'class':
+                names = [v[1]]
+            elif isinstance(v, tuple) and v and all(isinstance(x, tuple) and x and x[0] == 'class' for x in v):
+                names = [x[1] for x in v]
+            else:
+                names = [norm(x) for x in cl.elts] if isinstance(cl, ast.Tuple) else [norm(cl)]
             return any(h.isinstance_(args[0], nme.split('.')[-1]) for nme in names)
         if isinstance(fn, ast.Name) and fn.id in ('bool',) and len(args) == 1:
             return self.truth(args[0])
@@ -472,6 +478,13 @@ class Interp:
                 if rv is not None:
                     return self.seq(self.call(Closure(rv.node, {}, args[0], rv.cls), []))
             return list(reversed(self.seq(args[0])))
+        if isinstance(fn, ast.Name) and fn.id == 'next' and args:
+            items = self.seq(args[0])
+            if items:
+                return items[0]
+            if len(args) > 1:
+                return args[1]
+            raise Raised('StopIteration', h.version, e.lineno)
         if isinstance(fn, ast.Name) and fn.id in ('list', 'tuple', 'iter') and len(args) == 1:
             items = self.seq(args[0])
             return h.new_list(items) if fn.id == 'list' else (tuple(items) if fn.id == 'tuple' else items)
